@@ -37,6 +37,7 @@ const (
 	ekMalleatedTwin      // an RCD-e signed transfer followed by a third party's copy of it with the last signature byte altered
 	ekCorruptTwin        // an ed25519 signed transfer followed by a copy whose signature bytes were altered (no longer verifies)
 	ekHugeAmount         // a correctly signed transfer or conversion whose amount does not fit in int64
+	ekReformattedTwin    // a valid transfer followed by a copy whose JSON content got extra whitespace (signature ids reused)
 	ekKinds
 )
 
@@ -326,6 +327,21 @@ func VerifTxBlock() {
 		}
 		h := vrtHash(fresh)
 		fresh++
+		if kind == ekReformattedTwin {
+			// the holder signed the exact bytes of E1; a third party re-publishes them reformatted
+			// (whitespace), re-using the external ids: different bytes, different hash, NOT signed
+			e1, sp1 := vrtMakeEntry(ekTransfer, h, blockTime, height, vrt.URange("amt", 0, vrtMaxBal/4), B)
+			e2 := e1
+			e2.Content = vrt.Reformat(e1.Content)
+			e2.Hash = vrtHash(fresh)
+			fresh++
+			vrt.SealEntry(&e2)
+			sp2 := sp1
+			sp2.kind, sp2.hash, sp2.valid = ekReformattedTwin, e2.Hash, false
+			entries = append(entries, e1, e2)
+			specs = append(specs, sp1, sp2)
+			continue
+		}
 		if kind == ekCorruptTwin {
 			// a genuine entry, then the same salt/RCD/content with a destroyed signature under a new
 			// hash: whatever the daemon remembers about the first, the second is not authorised
